@@ -11,6 +11,7 @@ Model side (K): the Lean `Impl.Parser.readTerm` applied to the Lean `Impl.Printe
 (driver request `rt`), compared with the implementation's outcome.
 """
 import io
+import os
 import re
 import warnings
 from fractions import Fraction
@@ -37,7 +38,9 @@ RULE = ("type-directed random formulas of every sort (Bool/Int/Real/BV/String/Ar
         "universes a run of 2-4 CONSECUTIVE .def_k names, k from 0 to 10, given to the Bool/Int symbols --, never reserved "
         "words or literal spellings); scripts made of every serialisable command (incl. define-fun, declare-sort, "
         "push/pop, OMT commands); sequences of 2-3 script round trips through ONE SmtLibParser object (logic without integers "
-        "first, then integer numerals without set-logic, ...) compared with a fresh parser; a case is non-trivial when the formula is not a leaf; distinct = distinct "
+        "first, then integer numerals without set-logic, ...) compared with a fresh parser; the shortcuts without environment argument "
+        "(parsing.parse, to_smtlib, write_smtlib + read_smtlib) under three different current environments per round (same names, "
+        "partly other sorts) against the routes with an explicit environment; a case is non-trivial when the formula is not a leaf; distinct = distinct "
         "(printer, formula) pairs / script texts")
 ASSUMPTIONS = [
     "symbol names never spell a literal, a reserved word, a theory symbol or (for the human-readable part) an HR keyword",
@@ -1193,6 +1196,276 @@ def hr_known_shape(f, names):
     return tags
 
 
+# ------------------------------------------------------------------------------------------
+# the public shortcuts that take NO environment argument (DESIGN 11.7): `pysmt.parsing.parse`, `shortcuts.to_smtlib`,
+# `shortcuts.write_smtlib` / `shortcuts.read_smtlib` work on the CURRENT environment.  They are called under several
+# different current environments in ONE process (same names, partly other sorts, partly other symbols) and must give
+# what the routes with an explicit environment give: the identical object of the current environment.
+GLUE_SPEC_NAMES = ["x", "y", "z", "p", "q", "r", "k", "w", "v0", "foo", "b1", "b2"]
+GLUE_FIRST = {}            # route -> (spec, hr text) of the first call of the route in this process
+GLUE_ROUTES = ("parsing.parse", "shortcuts.to_smtlib", "shortcuts.write_smtlib+read_smtlib")
+
+
+def _glue_type(code):
+    return {"B": BOOL, "I": INT, "R": REAL, "V": BVType(8)}[code]
+
+
+def _glue_env(spec):
+    env = Environment()
+    m = env.formula_manager
+    by = {"B": [], "I": [], "R": [], "V": []}
+    for name, code in spec:
+        by[code].append(m.Symbol(name, _glue_type(code)))
+    return env, by
+
+
+def _glue_spec(rng, base=None):
+    """a universe [(name, sort code)]; with `base`: the same names, one to three of them with another sort, one dropped,
+    one new"""
+    if base is None:
+        names = rng.sample(GLUE_SPEC_NAMES, rng.randint(6, 9))
+        spec = [(n, rng.choice("BBIIRRV")) for n in names]
+        if not any(c == "B" for _, c in spec):
+            spec[0] = (spec[0][0], "B")
+        return spec
+    spec = list(base)
+    for _ in range(rng.randint(0, 3)):
+        i = rng.randrange(len(spec))
+        if spec[i][1] != "B" or sum(1 for _, c in spec if c == "B") > 1:
+            spec[i] = (spec[i][0], rng.choice([c for c in "BIRV" if c != spec[i][1]]))
+    if rng.random() < 0.5 and len(spec) > 4:
+        i = rng.randrange(len(spec))
+        if spec[i][1] != "B" or sum(1 for _, c in spec if c == "B") > 1:
+            del spec[i]
+    if rng.random() < 0.6:
+        free = [n for n in GLUE_SPEC_NAMES if n not in [x for x, _ in spec]]
+        if free:
+            spec.append((rng.choice(free), rng.choice("BIRV")))
+    return spec
+
+
+def _glue_formula(rng, m, by, depth):
+    """a small Bool formula over the symbols `by`"""
+    from fractions import Fraction
+
+    def arith(t, d):
+        k = rng.random()
+        if d <= 0 or k < 0.35:
+            if by[t] and rng.random() < 0.8:
+                return rng.choice(by[t])
+            return m.Int(rng.randint(0, 5)) if t == "I" else m.Real(Fraction(rng.randint(0, 7), rng.choice([1, 2, 4])))
+        if k < 0.6:
+            return m.Plus(arith(t, d - 1), arith(t, d - 1))
+        if k < 0.8:
+            return m.Minus(arith(t, d - 1), arith(t, d - 1))
+        if k < 0.9:
+            c = m.Int(rng.randint(2, 4)) if t == "I" else m.Real(rng.randint(2, 4))
+            return m.Times(c, arith(t, d - 1))
+        return m.Ite(boolean(d - 1), arith(t, d - 1), arith(t, d - 1))
+
+    def bv(d):
+        k = rng.random()
+        if d <= 0 or k < 0.4:
+            if by["V"] and rng.random() < 0.8:
+                return rng.choice(by["V"])
+            return m.BV(rng.randrange(256), 8)
+        if k < 0.6:
+            return m.BVAdd(bv(d - 1), bv(d - 1))
+        if k < 0.8:
+            return m.BVAnd(bv(d - 1), bv(d - 1))
+        return m.BVNot(bv(d - 1))
+
+    def boolean(d):
+        k = rng.random()
+        if d <= 0 or k < 0.2:
+            if by["B"] and rng.random() < 0.9:
+                return rng.choice(by["B"])
+            return m.Bool(rng.random() < 0.5)
+        if k < 0.32:
+            return m.Not(boolean(d - 1))
+        if k < 0.44:
+            return m.And(boolean(d - 1), boolean(d - 1))
+        if k < 0.56:
+            return m.Or(boolean(d - 1), boolean(d - 1))
+        if k < 0.62:
+            return m.Implies(boolean(d - 1), boolean(d - 1))
+        if k < 0.68:
+            return m.Iff(boolean(d - 1), boolean(d - 1))
+        if k < 0.9:
+            t = rng.choice("IR")
+            a, b = arith(t, d - 1), arith(t, d - 1)
+            return rng.choice([m.LT, m.LE, m.Equals])(a, b)
+        a, b = bv(d - 1), bv(d - 1)
+        return rng.choice([m.BVULT, m.BVULE, m.Equals])(a, b)
+    return boolean(depth)
+
+
+def _glue_call(route, env, hr_text, daggify=False):
+    """calls the public shortcut `route` under the current environment `env` for the formula whose human-readable text is
+    `hr_text`; -> list of problems (empty: the shortcut gives what the route with an explicit environment gives)"""
+    import tempfile
+    import pysmt.parsing as HRmod
+    import pysmt.shortcuts as S
+    from pysmt.smtlib.parser import get_formula_fname
+    from pysmt.environment import get_env
+    problems = []
+    with warnings.catch_warnings():
+        warnings.simplefilter("ignore")
+        h = HRParser(env).parse(hr_text)                  # explicit environment: the reference object
+        assert h in env.formula_manager
+        path = None
+        try:
+            with env:
+                assert get_env() is env
+                if route == "parsing.parse":
+                    g = HRmod.parse(hr_text)
+                    if g is not h:
+                        problems.append("parse(text) is not the object HRParser(current environment).parse(text) returns"
+                                        + ("" if g in env.formula_manager else ": it does not belong to the current environment")
+                                        + ("" if g.serialize() == h.serialize() else "; it prints as %s" % g.serialize()[:120])
+                                        + ("" if sorted((v.symbol_name(), str(v.symbol_type())) for v in g.get_free_variables())
+                                           == sorted((v.symbol_name(), str(v.symbol_type())) for v in h.get_free_variables())
+                                           else "; free symbols %s" % sorted((v.symbol_name(), str(v.symbol_type()))
+                                                                              for v in g.get_free_variables())))
+                elif route == "shortcuts.to_smtlib":
+                    t = S.to_smtlib(h, daggify=daggify)
+                    buf = io.StringIO()
+                    (SmtDagPrinter if daggify else SmtPrinter)(buf).printer(h)
+                    if t != buf.getvalue():
+                        problems.append("to_smtlib(f) = %s, the printer object writes %s" % (t[:120], buf.getvalue()[:120]))
+                else:
+                    fd, path = tempfile.mkstemp(suffix=".smt2", prefix="c09glue_")
+                    os.close(fd)
+                    S.write_smtlib(h, path)
+                    g = S.read_smtlib(path)
+                    d = get_formula_fname(path, environment=env)
+                    if g is not d:
+                        problems.append("read_smtlib(file) is not the object get_formula_fname(file, environment=current) returns"
+                                        + ("" if g in env.formula_manager else ": it does not belong to the current environment"))
+                    if g is not h:
+                        problems.append("write_smtlib then read_smtlib does not return the formula that was written: %s"
+                                        % g.serialize()[:150])
+        except RecursionError:
+            raise
+        except Exception as e:
+            problems.append("raised %s: %s" % (type(e).__name__, str(e)[:150]))
+        finally:
+            if path:
+                try:
+                    os.unlink(path)
+                except OSError:
+                    pass
+    return problems
+
+
+def run_glue_routes(ctx, n):
+    quick = ctx.tier == "quick"
+    rng = ctx.rng
+    specs, envs = [], []
+    for i in range(n):
+        if ctx.time_left() < (50 if quick else 200):
+            break
+        if i % 12 == 0:
+            _trim_global_caches()
+            a = _glue_spec(rng)
+            specs = [a, _glue_spec(rng, a), _glue_spec(rng, a)]
+            envs = [_glue_env(sp) for sp in specs]
+        j = rng.randrange(len(specs)) if i % 12 >= 3 else i % 12          # every environment is the current one in every round
+        env, by = envs[j]
+        f = _glue_formula(rng, env.formula_manager, by, rng.choice([1, 2, 2, 3]))
+        text = f.serialize()
+        daggify = rng.random() < 0.5
+        for route in GLUE_ROUTES:
+            ctx.count("glue_route_calls")
+            ctx.case(None if not f.args() else ("glue", route, text))
+            first = GLUE_FIRST.setdefault(route, (specs[j], text))
+            problems = _glue_call(route, env, text, daggify)
+            if problems:
+                ctx.report_s({"oracle": "glue-route", "route": route, "kind": problems[0].split(":")[0][:60]},
+                             "%s under a current environment other than the first of the process: %s [formula %s]"
+                             % (route, "; ".join(problems)[:400], text[:200]),
+                             {"stream": "glue-routes", "route": route, "spec": specs[j], "text": text, "daggify": daggify,
+                              "first_spec": first[0], "first_text": first[1]})
+
+
+# ------------------------------------------------------------------------------------------
+# extreme but legal constants (round 5): integral Real constants beyond 2**53 / 2**64, rationals with huge numerators and
+# denominators, Int constants beyond 2**64, negative ones -- through the human-readable round trip (HRParser with the
+# environment, and the `parse` shortcut) and through both SMT-LIB printers.  The very same object must come back.
+BIG_INTS = [2 ** 53 + 1, 2 ** 63, 2 ** 64 + 1, 10 ** 30 + 1, 3 ** 70, 2 ** 200 + 7, 9007199254740993]
+BIG_ROUTES = ("hr", "hr-shortcut", "smt-tree", "smt-dag")
+
+
+def _big_formula(m, sort, num, den, shape):
+    """the formula of a recorded big-constant case (the replay rebuilds it from these five values)"""
+    c = m.Int(num) if sort == "Int" else m.Real(Fraction(num, den))
+    ty = INT if sort == "Int" else REAL
+    x = m.Symbol("x", ty)
+    if shape == 0:
+        return c
+    if shape == 1:
+        return m.LT(x, c)
+    if shape == 2:
+        return m.Equals(m.Plus(x, c), c)
+    return m.Ite(m.LE(c, x), x, c)
+
+
+def _big_check(route, sort, num, den, shape):
+    """-> problem text or None"""
+    import pysmt.parsing as HRmod
+    env = Environment()
+    m = env.formula_manager
+    f = _big_formula(m, sort, num, den, shape)
+    try:
+        with warnings.catch_warnings():
+            warnings.simplefilter("ignore")
+            if route == "hr":
+                text = f.serialize()
+                g = HRParser(env).parse(text)
+            elif route == "hr-shortcut":
+                text = f.serialize()
+                with env:
+                    g = HRmod.parse(text)
+            else:
+                text = print_formula(f, route == "smt-dag")
+                res = parse_term(env, declarations(env, [f]), text)
+                if res[0] == "err":
+                    return "parse(print(f)) raised %s: %s [text %s]" % (res[1], res[2], text[:200])
+                g = res[1]
+    except RecursionError:
+        raise
+    except Exception as e:
+        return "raised %s: %s" % (type(e).__name__, str(e)[:150])
+    if g is not f:
+        return "the formula read back is not the formula printed: printed as %s, read back as %s" % (text[:200], semantic.readable(g, 200))
+    return None
+
+
+def run_big_constants(ctx, n):
+    rng = ctx.rng
+    for i in range(n):
+        sort = rng.choice(["Real", "Real", "Int"])
+        k = rng.random()
+        num = rng.choice(BIG_INTS) if k < 0.6 else rng.randint(2 ** 53, 2 ** 90)
+        den = 1
+        if sort == "Real" and rng.random() < 0.5:
+            den = rng.choice(BIG_INTS + [3, 7, 10 ** 18 + 9])
+        if rng.random() < 0.3:
+            num = -num
+        shape = rng.randrange(4)
+        for route in BIG_ROUTES:
+            ctx.count("big_constant_roundtrips")
+            ctx.case(("big", route, sort, num, den, shape))
+            problem = _big_check(route, sort, num, den, shape)
+            if problem:
+                ctx.report_s({"oracle": "big-constant", "route": route, "sort": sort,
+                              "kind": "integral" if den == 1 else "rational"},
+                             "round trip of a formula with a big %s constant (%s%s) through %s: %s"
+                             % (sort, num, "" if den == 1 else "/%d" % den, route, problem[:500]),
+                             {"stream": "big-constants", "route": route, "sort": sort, "num": str(num), "den": str(den),
+                              "shape": shape})
+
+
 def run_hr_roundtrip(ctx, n, lines, meta):
     quick = ctx.tier == "quick"
     ig = None
@@ -1664,6 +1937,25 @@ def run_witnesses(ctx):
         elif res[1] is not f:
             ctx.report_s({"oracle": "roundtrip", "printer": "tree", "kind": "different-object", "shape": shape},
                          "parse(print(f)) is not f: %s" % semantic.readable(res[1]), rep)
+    # P18: a FUNCTION named like a reserved word or a token of the parser's table, applied: the printers write the name
+    # unquoted (and the tokenizer would drop the bars anyway), the parser dispatches on the token before the declarations
+    for nm in ("let", "!", "forall", "_"):
+        env = Environment()
+        m = env.formula_manager
+        fn = m.Symbol(nm, FunctionType(BOOL, [BOOL]))
+        f = m.Function(fn, [m.Symbol("q", BOOL)])
+        decls = declarations(env, [f])
+        text = print_formula(f, False)
+        res = parse_term(env, decls, text)
+        ctx.case(("witness", "function-named-reserved-word", text))
+        rep = {"printer": "tree", "text": text, "decls": decls, "formula": semantic.readable(f)}
+        if res[0] == "err":
+            ctx.report_s({"oracle": "roundtrip", "printer": "tree", "kind": "parse-error", "error": res[1],
+                          "shape": "function-named-reserved-word"}, "parse(print(f)) raised %s: %s" % (res[1], res[2]), rep)
+        elif res[1] is not f:
+            ctx.report_s({"oracle": "roundtrip", "printer": "tree", "kind": "different-object",
+                          "shape": "function-named-reserved-word"},
+                         "parse(print(f)) is not f: %s" % semantic.readable(res[1]), rep)
     # P07: the default weight of assert-soft is the Int 1; under a logic without Ints the numeral 1 is read as a Real
     env = Environment()
     t0 = "(set-logic QF_BV)(declare-fun p () Bool)(assert-soft p)"
@@ -1712,6 +2004,8 @@ def run(ctx):
     run_script_roundtrip(ctx, 150 if quick else 2500)
     run_text_script_roundtrip(ctx, 250 if quick else 4000)
     run_parser_reuse(ctx, 60 if quick else 300)
+    run_glue_routes(ctx, 240 if quick else 3000)
+    run_big_constants(ctx, 60 if quick else 800)
     run_hr_roundtrip(ctx, 900 if quick else 15000, lines, meta)
     finish_sem(ctx, lines, meta)
     run_model(ctx)
@@ -1772,6 +2066,26 @@ def run_model(ctx):
 def replay(ctx, rep):
     r = rep["replay"]
     sig = rep.get("sig", {})
+    if r.get("stream") == "big-constants":
+        print("route:", r["route"], "sort:", r["sort"], "constant:", r["num"], "/", r["den"], "shape:", r["shape"])
+        problem = _big_check(r["route"], r["sort"], int(r["num"]), int(r["den"]), r["shape"])
+        print("  ->", problem or "the very same object comes back")
+        if problem:
+            ctx.report_s(sig, rep["what"], r)
+        return
+    if r.get("stream") == "glue-routes":
+        # a fresh process: first the call that was the first of the route in the recorded process (its environment is the one a
+        # process-wide cache would be pinned to), then the recorded call under ITS environment
+        print("route:", r["route"], "\nfirst call of the process: symbols", r["first_spec"], "formula", r["first_text"])
+        env0, _ = _glue_env([tuple(x) for x in r["first_spec"]])
+        print("  ->", _glue_call(r["route"], env0, r["first_text"], r.get("daggify", False)) or "as with an explicit environment")
+        env1, _ = _glue_env([tuple(x) for x in r["spec"]])
+        print("recorded call: symbols", r["spec"], "formula", r["text"])
+        problems = _glue_call(r["route"], env1, r["text"], r.get("daggify", False))
+        print("  ->", problems or "as with an explicit environment")
+        if problems:
+            ctx.report_s(sig, rep["what"], r)
+        return
     if sig.get("oracle") == "roundtrip":
         print("printer:", r["printer"], "\ntext:", r["text"], "\nformula:", r["formula"])
         print("(replay needs the environment of the run: re-run with the recorded seed: VERIF_SEED=%s)" % rep.get("seed"))
